@@ -45,6 +45,9 @@ func init() {
 // renderDepth bounds how far a value's definition is unfolded (3 for the frozen C03 table).
 var renderDepth = 3
 
+// renderAllocs: render a once-assigned local by its value (off for the frozen C03 table).
+var renderAllocs = false
+
 func renderValue(v ssa.Value, d int) string {
 	if d > renderDepth {
 		return "…"
@@ -106,6 +109,20 @@ func renderValue(v ssa.Value, d int) string {
 	case *ssa.MakeInterface:
 		return renderValue(x.X, d+1)
 	case *ssa.Alloc:
+		if renderAllocs {
+			// a local assigned exactly once is rendered by the value it holds
+			n := 0
+			var sv ssa.Value
+			for _, ref := range *x.Referrers() {
+				if st, ok := ref.(*ssa.Store); ok && st.Addr == ssa.Value(x) {
+					n++
+					sv = st.Val
+				}
+			}
+			if n == 1 {
+				return "‹" + renderValue(sv, d+1) + "›"
+			}
+		}
 		return "local:" + typeShort(x.Type())
 	case *ssa.MakeMap:
 		return "make(map)"
